@@ -374,8 +374,8 @@ theorem writeLines_never_panics (p : MediaPlaylist) : p.writeLines ≠ .panic :=
     apply foldRes_ne_panic
     intro st s
     simp only [writeSegStep]
-    have := foldRes_ne_panic writeKeyStep writeKeyStep_np st s.keys
-    cases hf : foldRes writeKeyStep st s.keys with
+    have := foldRes_ne_panic writeKeyStep writeKeyStep_np (resetStep st s.keys) s.keys
+    cases hf : foldRes writeKeyStep (resetStep st s.keys) s.keys with
     | ok r => simp
     | err => simp
     | panic => exact absurd hf this
